@@ -585,6 +585,9 @@ func (in *Inst) finishLoop(ls *LoopS, rs *regionState) {
 		for k, v := range in.X.cellCur {
 			in.X.cellCur[k] = f(v)
 		}
+		for k, v := range in.X.objAlias {
+			in.X.objAlias[k] = f(v)
+		}
 		for _, m := range rs.exitCells {
 			for k, v := range m {
 				m[k] = f(v)
